@@ -720,7 +720,16 @@ def subscript_store(eng, st, base, sl, value, node):
         value = coerce(eng, st, value, k[1], 'list store')
         i = eng.norm_index(st, to_int(eng.ev(sl, st)), n, node)
         eng.check_store(st, base.t, None, node, 'list-item')
-        st.heap.wr('el:' + elem_tag(k[1]), base.t, z3.Store(eng.list_arr(st, base), i, value.t))
+        old_arr = eng.list_arr(st, base)
+        new_arr = z3.Store(old_arr, i, value.t)
+        st.heap.wr('el:' + elem_tag(k[1]), base.t, new_arr)
+        if k[1] == 'int' and ('axioms:cnt:%d' % old_arr.get_id()) in st.ghost:
+            # counting lemma for a single-position update (proved by induction in lemmas/l_sums.py, cnt-store)
+            f = cnt(eng, st, new_arr)
+            ck, cn = z3.Int(fresh_name('ck')), z3.Int(fresh_name('cn'))
+            delta = z3.If(value.t == ck, 1, 0) - z3.If(z3.Select(old_arr, i) == ck, 1, 0)
+            st.pc.append(z3.ForAll([ck, cn], z3.Implies(cn >= 0, f(new_arr, ck, cn) == f(old_arr, ck, cn) + z3.If(cn > i, delta, 0)),
+                                   patterns=[f(new_arr, ck, cn)]))
         return
     if head == 'arr':
         return arr_store(eng, st, base, sl, value, node)
@@ -1290,12 +1299,58 @@ def call_opaque(eng, st, fv, args, kwargs, node):
 
 
 # ---------------------------------------------------------------- sorted / defaultdict / counting
-def cnt(eng, st, arr=None):
-    """cnt(a, k, p) = #{q < p : a[q] == k}  (prefix count; per-array defining equations, no matching loop)"""
+def _mentions_bound(st, *terms):
+    """does one of the terms mention a variable bound by an enclosing spec quantifier?"""
+    qv = st.ghost.get('qvars', ())
+    if not qv:
+        return st.ghost.get('qdepth', 0) > 0
+    ids = {c.get_id() for c in qv}
+    seen = set()
+    stack = list(terms)
+    while stack:
+        t = stack.pop()
+        i = t.get_id()
+        if i in seen:
+            continue
+        seen.add(i)
+        if i in ids:
+            return True
+        if z3.is_app(t):
+            stack.extend(t.children())
+        elif z3.is_quantifier(t):
+            stack.append(t.body())
+    return False
+
+
+def cnt_ext_instance(eng, st, a, na, b, nb):
+    """instance of the lemma cnt-ext (proved by induction in lemmas/l_sums.py): two lists of equal length that agree
+    pointwise have the same count of every value.  Requested explicitly by a contract (spec builtin cnt_ext) -- instantiating
+    it for every pair of lists in scope makes unrelated goals time out."""
+    f = cnt(eng, st, a)
+    cnt(eng, st, b)
+    kk, s_ = z3.Int(fresh_name('ck')), z3.Int(fresh_name('cs'))
+    prem = z3.ForAll([s_], z3.Implies(z3.And(0 <= s_, s_ < na), z3.Select(a, s_) == z3.Select(b, s_)))
+    concl = z3.ForAll([kk], f(a, kk, na) == f(b, kk, nb), patterns=[f(a, kk, na)])
+    concl2 = z3.ForAll([kk], f(a, kk, na) == f(b, kk, nb), patterns=[f(b, kk, nb)])
+    return z3.Implies(z3.And(na == nb, prem), z3.And(concl, concl2))
+
+
+def cnt(eng, st, arr=None, length=None):
+    """cnt(a, k, p) = #{q < p : a[q] == k}  (prefix count; per-array defining equations, no matching loop).
+    Lemma instances (proved by induction in lemmas/l_sums.py, `cnt-updates`): lists of equal length that agree
+    pointwise have equal counts; cnt(a, k, p) <= p."""
     f = eng.uf('cnt', z3.ArraySort(I, I), I, I, I)
     if arr is None:
         return f
     key = 'axioms:cnt:%d' % arr.get_id()
+    if length is not None and not _mentions_bound(st, arr, length):
+        apps = st.ghost.setdefault('cnt_apps', [])
+        if not any(x.eq(arr) and y.eq(length) for x, y in apps):
+            kk = z3.Int(fresh_name('ck'))
+            st.pc.append(z3.ForAll([kk], f(arr, kk, length) <= length, patterns=[f(arr, kk, length)]))
+            st.ghost['cnt_apps'] = apps + [(arr, length)]
+            eng.assumed.add("lemma (proved by induction in lemmas/l_sums.py, cnt-updates): lists that agree pointwise have equal "
+                            "cnt; cnt(a,k,n) <= n; a single-position store changes cnt by [v==k] - [old==k] beyond that position")
     if key not in st.ghost:
         st.ghost[key] = True
         k, m, n = z3.Int(fresh_name('ck')), z3.Int(fresh_name('cm')), z3.Int(fresh_name('cn'))
